@@ -260,6 +260,10 @@ def body(led):
     check_similarity(led)
     from . import c14_num
     c14_num.body(led)
+    # Python-layer premise of 'numerically integrated matrices at the undeformed state equal the analytic ones': both kinds of kernel
+    # are handed the same laminate matrix, also when force_orthotropic_laminate edits it
+    from . import py_panel
+    py_panel.check_one_laminate(led)
 
 
 def main():
